@@ -190,6 +190,10 @@ pub fn run(p: &Params) -> Outcome {
         let mut rng = Rng::derive(seed, "C02", w as u64);
         let nn = nums.len();
         for i in 0..per {
+            if ctx.saturated() {
+                ctx.count("stopped_early_after_20000_violations");
+                break;
+            }
             match i % 16 {
                 0 => {
                     // every 12-bit number with short payloads
